@@ -735,3 +735,40 @@ package core
 //@   ensures @journalname self.fqname == fn(syntax.CallGraphNode.GetFqid, self.node.call) + "." + fn("strings.Replacer.Replace", core.encodeJournalName, self.id)
 //@   ensures @id self.id == fn(core.ForkId.ForkIdString, id).0
 //@   loop 1 invariant self.fqname == atloop(self.fqname) && self.id == atloop(self.id) && self.node == atloop(self.node)
+
+// ---------------------------------------------------------------- C16 the split status of an argument survives JSON -> call
+// BuildCallAst: every argument listed in splitargs (and supplied) is bound to a split
+// expression in the generated call, whatever form its value had.
+//@ func core.convertToExp property C16
+//@   trusted
+//@   pure
+//@   opt deterministic on
+
+//@ iface syntax.Callable.GetInParams property C16
+//@   pure
+//@   opt deterministic on
+//@ iface syntax.Callable.GetId property C16
+//@   pure
+//@   opt deterministic on
+//@ iface syntax.Callable.File property C16
+//@   pure
+//@   opt deterministic on
+//@ iface syntax.Param.GetId property C16
+//@   pure
+//@   opt deterministic on
+//@ iface syntax.Param.GetTname property C16
+//@   pure
+//@   opt deterministic on
+//@ func syntax.IncludeFilePath property C16
+//@   trusted
+//@   pure
+
+//@ func core.BuildCallAst property C16
+//@   requires !isnil(callable) && fn(syntax.Callable.GetInParams, callable) != nil
+//@   let PL = fn(syntax.Callable.GetInParams, callable).List
+//@   requires forall j :: 0 <= j && j < len(PL) ==> !isnil(PL[j])
+//@   ensures @splitkept isnil(result.1) ==> len(result.0.Call.Bindings.List) == len(PL) && forall j, q :: 0 <= j && j < len(PL) && 0 <= q && q < len(splitargs) && splitargs[q] == PL[j].Id && !isnil(args[PL[j].Id]) ==> istype(result.0.Call.Bindings.List[j].Exp, ptr_syntax.SplitExp)
+//@   loop 1 invariant 0 <= iter && iter <= len(PL) && len(ast.Call.Bindings.List) == iter && ast.Call != nil && ast.Call.Bindings != nil
+//@   loop 1 invariant forall j, q :: 0 <= j && j < iter && 0 <= q && q < len(splitargs) && splitargs[q] == PL[j].Id && !isnil(args[PL[j].Id]) ==> istype(ast.Call.Bindings.List[j].Exp, ptr_syntax.SplitExp)
+//@   loop 1 invariant forall j :: 0 <= j && j < iter ==> alloc(ast.Call.Bindings.List[j])
+//@   loop 2 invariant 0 <= iter && iter <= len(splitargs) && forall q :: 0 <= q && q < iter ==> splitargs[q] != param.Id
